@@ -252,3 +252,52 @@ func ZZ_C14_dkgBundlesUnconsumed() {
 		board.Unlock()
 	}
 }
+
+func init() { zz.Register("ZZ_C14_dkgShadowedAddress", ZZ_C14_dkgShadowedAddress) }
+
+// ZZ_C14_dkgShadowedAddress: a first-epoch proposal, validly signed by its own leader, whose participant lists
+// contain -- besides the receiving node's real identity -- entries that reuse the receiving node's ADDRESS with
+// another (validly self-signed) key, entries listed twice, and nil entries, at symbolic positions. Any remote
+// party can build such a packet. The request returns, nothing panics in the handler or in the gossip
+// goroutines it leaves behind (those run outside the recovery interceptor), no lock stays held and the
+// service still answers.
+func ZZ_C14_dkgShadowedAddress() {
+	w := zzNewWorld(4) // 0 = this node, 1 = the proposing leader, 2 = another joiner, 3 = the key put under node 0's address
+	st := &zzStore{}
+	cl := &zzClient{}
+	p := zzProcess(w, 0, st, cl)
+	shadow := zzCloneP(w.parts[3])
+	shadow.Address = w.parts[0].Address
+	var extra *drand.Participant
+	switch zz.Choose("odd_entry", 4) {
+	case 0:
+		extra = shadow
+	case 1:
+		extra = zzCloneP(w.parts[0]) // this node listed twice
+	case 2:
+		extra = zzCloneP(w.parts[2]) // another joiner listed twice
+	case 3:
+		extra = nil // a nil entry
+	}
+	joining := []*drand.Participant{w.parts[1], w.parts[0], w.parts[2]}
+	pos := zz.Choose("odd_entry_position", 4)
+	joining = append(joining[:pos], append([]*drand.Participant{extra}, joining[pos:]...)...)
+	terms := zzTerms(w, 1, 1, nil, joining, nil)
+	terms.GenesisSeed = nil
+	terms.Threshold = 3
+	pkt := &drand.GossipPacket{Packet: &drand.GossipPacket_Proposal{Proposal: terms}}
+	zzSign(w, 1, w.parts[1].Address, pkt, terms)
+	rerr, _ := zzContained(func() error { _, err := p.Packet(context.Background(), pkt); return err })
+	zz.Quiesce()
+	zz.Trace("pos=%d err=%v ops=%v gossiped=%d", pos, rerr, st.ops, len(cl.packets))
+	if len(st.ops) > 0 {
+		zz.Reach("proposal_with_an_odd_entry_accepted_and_gossiped")
+	}
+	free := p.lock.TryLock()
+	zz.Assert("no_lock_left_held", free)
+	if free {
+		p.lock.Unlock()
+	}
+	_, perr := p.DKGStatus(context.Background(), &drand.DKGStatusRequest{BeaconID: zzBeacon})
+	zz.Assert("still_serving_after_request", perr == nil)
+}
